@@ -240,6 +240,22 @@ func TestC04(t *testing.T) {
 					F, V, F, R, F, R, bn.BPush, bn.BPush, bn.KwIf, R, P, n)
 				made = n
 			default:
+				// the closures are declared directly in the factory body, or inside a nested block / if arm / loop body of it
+				open, close := "", ""
+				switch rapid.IntRange(0, 3).Draw(rt, "declNesting") {
+				case 1:
+					open, close = "  {\n", "  }\n"
+				case 2:
+					open, close = "  "+bn.KwIf+" (seed >= 0) {\n", "  }\n"
+				case 3:
+					open, close = "  "+bn.KwFor+" ("+V+" once = 0; once < 1; once = once + 1) {\n", "  }\n"
+				}
+				if open != "" {
+					fmt.Fprintf(&b, "%s mk2(seed) {\n  %s j = seed;\n  %s out = nil;\n%s    %s rd() { %s [seed, j, total]; }\n    %s bump() { j = j + 1; total = total + 1; %s j; }\n    out = [rd, bump];\n%s  %s out;\n}\n%s (%s i = 0; i < %d; i = i + 1) {\n  %s pair = mk2(i * 10);\n  rds = %s(rds, pair[0]);\n  bumps = %s(bumps, pair[1]);\n  reg.last = pair[1];\n}\n",
+						F, V, V, open, F, R, F, R, close, R, bn.KwFor, V, n, V, bn.BPush, bn.BPush)
+					made = n
+					break
+				}
 				fmt.Fprintf(&b, "%s mk2(seed) {\n  %s j = seed;\n  %s rd() { %s [seed, j, total]; }\n  %s bump() { j = j + 1; total = total + 1; %s j; }\n  %s [rd, bump];\n}\n%s (%s i = 0; i < %d; i = i + 1) {\n  %s pair = mk2(i * 10);\n  rds = %s(rds, pair[0]);\n  bumps = %s(bumps, pair[1]);\n  reg.last = pair[1];\n}\n",
 					F, V, F, R, F, R, R, bn.KwFor, V, n, V, bn.BPush, bn.BPush)
 				made = n
